@@ -62,7 +62,18 @@ pub enum Case {
         seed: u64,
     },
     /// input bytes, window-size signals and wakes while output is pending
-    Input { keys: Vec<u8>, batch: usize, pending_kb: usize, winch: usize, slow: bool, seed: u64 },
+    Input {
+        keys: Vec<u8>,
+        batch: usize,
+        pending_kb: usize,
+        winch: usize,
+        slow: bool,
+        seed: u64,
+        /// small flushed frames queued before every batch of keys (keeps the tty writable *and*
+        /// readable round after round), polled with zero timeouts on a peer that reads at full speed
+        #[serde(default)]
+        small_frames: usize,
+    },
     /// reports, keys and mouse sequences (printed by the C04 protocol printer) typed into the pty in
     /// batches of arbitrary size while output is pending: the events must come out as printed
     Events { items: Vec<super::c04::Item>, batches: Vec<usize>, pending_kb: usize, slow: bool, seed: u64 },
@@ -74,6 +85,9 @@ pub enum Case {
         #[serde(default)]
         again: bool,
         seed: u64,
+        /// the signal arrives while `open` is still probing the terminal (n-th select round of it)
+        #[serde(default)]
+        during_open: u8,
     },
     /// every prefix of the script, ended in the given way
     Exit { script: Vec<XOp>, mode: ExitMode, odd_termios: u64, seed: u64 },
@@ -405,8 +419,24 @@ fn check_wake_case(
     check_wakes(&hist, ctx)
 }
 
-fn check_input_case(keys: &[u8], batch: usize, pending_kb: usize, winch: usize, slow: bool, seed: u64, ctx: &mut Ctx) -> Result<(), Fail> {
-    let drain = if slow { Drain::Slow { max_read: 1024, pause_us: 200 } } else { Drain::Bursty { burst: 4096, pause_us: 500 } };
+#[allow(clippy::too_many_arguments)]
+fn check_input_case(
+    keys: &[u8],
+    batch: usize,
+    pending_kb: usize,
+    winch: usize,
+    slow: bool,
+    seed: u64,
+    small_frames: usize,
+    ctx: &mut Ctx,
+) -> Result<(), Fail> {
+    let drain = if small_frames > 0 {
+        Drain::Fast
+    } else if slow {
+        Drain::Slow { max_read: 1024, pause_us: 200 }
+    } else {
+        Drain::Bursty { burst: 4096, pause_us: 500 }
+    };
     let (mut session, _) = open_session(drain, seed, None)?;
     let mut term = session.term.take().unwrap();
     if pending_kb > 0 {
@@ -432,6 +462,13 @@ fn check_input_case(keys: &[u8], batch: usize, pending_kb: usize, winch: usize, 
                 return Ok(());
             }
             sent += n;
+            if small_frames > 0 {
+                for k in 0..small_frames {
+                    term.write_all(format!("frame {k:04} ").as_bytes())
+                        .map_err(|e| Fail::new("term:write-error", format!("{e}")))?;
+                    term.flush().map_err(|e| Fail::new("term:flush-error", format!("{e}")))?;
+                }
+            }
             if term.frames_pending() > 0 {
                 pending_while_input += 1;
             }
@@ -452,7 +489,7 @@ fn check_input_case(keys: &[u8], batch: usize, pending_kb: usize, winch: usize, 
         let mut first = true;
         let mut saw_resize = false;
         loop {
-            let t = if first { Some(Duration::from_millis(2)) } else { Some(Duration::from_millis(0)) };
+            let t = if first && small_frames == 0 { Some(Duration::from_millis(2)) } else { Some(Duration::from_millis(0)) };
             first = false;
             match term.poll(t) {
                 Ok(None) => break,
@@ -466,6 +503,16 @@ fn check_input_case(keys: &[u8], batch: usize, pending_kb: usize, winch: usize, 
                 Err(e) => fail!("input:poll-error", "poll failed while input was arriving: {e:?}"),
             }
         }
+        // bounded progress: the bytes typed before this step's polls were in the tty when the first
+        // poll started; once poll reports that nothing more is available they have all been delivered
+        // (each is a printable character: no look-ahead keeps them back)
+        ensure!(
+            got.len() >= sent,
+            "input:not-delivered-while-output-pending",
+            "{sent} key bytes were in the tty before the polls of step {steps}, only {} key events had been delivered when poll reported nothing more ({} frames still pending)",
+            got.len(),
+            term.frames_pending()
+        );
         if winch_outstanding {
             ensure!(
                 saw_resize,
@@ -498,6 +545,7 @@ fn check_input_case(keys: &[u8], batch: usize, pending_kb: usize, winch: usize, 
     drop(term);
     drop(session);
     ctx.feat("input.sessions");
+    ctx.feat_if(small_frames > 0, "input.sessions.small-frames-zero-timeout-fast-peer");
     ctx.feat_n("input.keys", keys.len() as u64);
     ctx.feat_n("input.batches-while-output-pending", pending_while_input);
     ctx.feat_n("signal.winch-raised", winch_raised as u64);
@@ -649,6 +697,70 @@ fn check_quit_case(signal: i32, pending_kb: usize, again: bool, seed: u64, ctx: 
     }
     drop(term);
     check_restored(&session, before, "after-quit-signal", true, ctx)?;
+    Ok(())
+}
+
+/// A termination signal that arrives while `SystemTerminal::open` probes the terminal: either `open`
+/// fails with `Error::Quit` or the quit surfaces from the polls that follow; in both cases the tty is
+/// left as it was found.
+fn check_quit_during_open(signal: i32, nth: u8, seed: u64, ctx: &mut Ctx) -> Result<(), Fail> {
+    std::env::set_var("TERM", "xterm-256color");
+    let pty = Pty::open(24, 80, 24 * 16, 80 * 8).map_err(|e| Fail::new("rig:openpt", format!("{e}")))?;
+    pty.set_odd_termios(seed % 8);
+    let before = pty.termios();
+    let peer = Peer::start(pty.master, Drain::Fast, seed);
+    let _ = unix_verif::take_log();
+    // raised from inside the n-th select round of the probe, i.e. certainly after the terminal has
+    // installed its signal delivery and certainly before `open` returns
+    let rounds = Arc::new(AtomicUsize::new(0));
+    let raised = Arc::new(AtomicUsize::new(0));
+    {
+        let (rounds, raised) = (rounds.clone(), raised.clone());
+        unix_verif::set_yield(Some(Arc::new(move |p| {
+            if p == YieldPoint::BeforeSelect && rounds.fetch_add(1, Ordering::SeqCst) + 1 == nth as usize {
+                raised.store(1, Ordering::SeqCst);
+                unsafe {
+                    libc::raise(signal);
+                }
+            }
+        })));
+    }
+    let guard = YieldGuard;
+    let opened = SystemTerminal::open(&pty.slave_path);
+    drop(guard);
+    let was_raised = raised.load(Ordering::SeqCst) == 1;
+    let mut session = Session { term: None, peer, pty };
+    match opened {
+        Err(Error::Quit) => {
+            ensure!(was_raised, "harness:quit-without-signal", "open reported Quit although no signal was raised");
+            ctx.feat("quit.during-open.reported-by-open");
+        }
+        Err(e) => return Err(Fail::new("rig:open", format!("open failed: {e:?}"))),
+        Ok(mut term) => {
+            if was_raised {
+                let mut result = "none";
+                for _ in 0..50 {
+                    let r = term.poll(Some(Duration::from_millis(2)));
+                    result = classify(&r);
+                    if r.is_err() {
+                        break;
+                    }
+                }
+                ensure!(
+                    result == "quit",
+                    "signal:quit-not-reported:during-open",
+                    "signal {signal} was raised in select round {nth} of SystemTerminal::open; open returned Ok and the following polls returned {result} instead of Error::Quit"
+                );
+                ctx.feat("quit.during-open.reported-by-later-poll");
+            } else {
+                ctx.feat("quit.during-open.probe-finished-before-round(not judged)");
+            }
+            session.term = Some(term);
+        }
+    }
+    drop(session.term.take());
+    check_restored(&session, before, "after-quit-signal-during-open", true, ctx)?;
+    ctx.feat(&format!("quit.signal.{signal}"));
     Ok(())
 }
 
@@ -906,13 +1018,15 @@ impl Prop for C17 {
                 let batch = *rng.pick(&[1usize, 3, 16, 64, 700]);
                 let n = rng.range(10, if batch < 4 { 300 } else if tier.quick() { 400 } else { 3000 });
                 let keys = (0..n).map(|_| rng.range(0x21, 0x7e) as u8).collect();
+                let small_frames = *rng.pick(&[0usize, 0, 8, 40]);
                 Case::Input {
                     keys,
                     batch,
-                    pending_kb: *rng.pick(&[0usize, 100, 250]),
+                    pending_kb: if small_frames > 0 { 0 } else { *rng.pick(&[0usize, 100, 250]) },
                     winch: rng.range(0, 4),
                     slow: rng.bool(),
                     seed: rng.next_u64(),
+                    small_frames,
                 }
             }
             9 => {
@@ -936,6 +1050,7 @@ impl Prop for C17 {
                 pending_kb: *rng.pick(&[0usize, 50]),
                 again: rng.bool(),
                 seed: rng.next_u64(),
+                during_open: if rng.chance(1, 3) { rng.range(1, 3) as u8 } else { 0 },
             },
             _ => {
                 let n = rng.range(1, 7);
@@ -970,13 +1085,16 @@ impl Prop for C17 {
             Case::Wake { wakers, timeouts, inject, delay_us, pending_kb, seed } => {
                 check_wake_case(wakers, timeouts, *inject, *delay_us, *pending_kb, *seed, ctx)
             }
-            Case::Input { keys, batch, pending_kb, winch, slow, seed } => {
-                check_input_case(keys, *batch, *pending_kb, *winch, *slow, *seed, ctx)
+            Case::Input { keys, batch, pending_kb, winch, slow, seed, small_frames } => {
+                check_input_case(keys, *batch, *pending_kb, *winch, *slow, *seed, *small_frames, ctx)
             }
             Case::Events { items, batches, pending_kb, slow, seed } => {
                 check_events_case(items, batches, *pending_kb, *slow, *seed, ctx)
             }
-            Case::Quit { signal, pending_kb, again, seed } => check_quit_case(*signal, *pending_kb, *again, *seed, ctx),
+            Case::Quit { signal, during_open, seed, .. } if *during_open > 0 => {
+                check_quit_during_open(*signal, *during_open, *seed, ctx)
+            }
+            Case::Quit { signal, pending_kb, again, seed, .. } => check_quit_case(*signal, *pending_kb, *again, *seed, ctx),
             Case::Exit { script, mode, odd_termios, seed } => check_exit_case(script, mode, *odd_termios, *seed, ctx),
         }
     }
